@@ -273,11 +273,10 @@ def resolve_contracts():
                  requires=[("ownership", "implies(zeroconf_manager is not None, " + INV_ZC[1].replace("self.", "zeroconf_manager.") + ")")],
                  ensures=[P("ipv6-results-before-ipv4-results", "result == addrs_of(info_v6(info), port, len(info_v6(info))) + addrs_of(info_v4(info), port, len(info_v4(info)))")],
                  raises={"ResolveAPIError": {"kind": "auxiliary"}, "CancelledError": {"kind": "auxiliary"}},
-                 loops={"loop#1": dict(index="_i", types={"addrs": "list[obj[AddrInfo]]"}, invariant=["addrs == addrs_of(info_v6(info), port, _i)"],
-                                       entry_hints="unfold(addrs_of(info_v6(info), port, 0))", end_hints="unfold(addrs_of(info_v6(info), port, _i))"),
-                        "loop#2": dict(index="_j", types={"addrs": "list[obj[AddrInfo]]"},
-                                       invariant=["addrs == addrs_of(info_v6(info), port, len(info_v6(info))) + addrs_of(info_v4(info), port, _j)"],
-                                       entry_hints="unfold(addrs_of(info_v4(info), port, 0))", end_hints="unfold(addrs_of(info_v4(info), port, _j))")},
+                 # one invariant scheme for both address loops (and for any regrouping of them): what the loop has appended so far
+                 loops={"*": dict(index="_i", types={"addrs": "list[obj[AddrInfo]]"},
+                                  invariant=["addrs == old(addrs, 'loop-entry') + addrs_of(iterated_seq, port, _i)"],
+                                  entry_hints="unfold(addrs_of(iterated_seq, port, 0))", end_hints="unfold(addrs_of(iterated_seq, port, _i))")},
                  modifies=["ghost.closed_log", "region:Zeroconf.lib_created"]),
         Contract(HR + "async_resolve_host", tags=["C20"], setup=_resolve_setup, result="list[obj[AddrInfo]]",
                  params={"hosts": "seq[str]", "port": "int", "zeroconf_manager": "opt[inst[ZeroconfManager]]"},
